@@ -156,3 +156,169 @@ def gen_manual_mem():
         raise ExtractError(f"bytes.rs: accessor table shrank (readers {len(readers)}, int writers {len(writers)}, "
                            f"float writers {len(fwriters)})")
     return write_if_changed("ManualMem.v", "".join(out))
+
+
+# ------------------------------------------------------------------------------------------
+# Operand-check tables of the two program-facing surfaces (builtins.rs natives, memory.inc opcodes)
+# and the ManualHeapError -> RuntimeErrorKind map of VM::manual_heap_error  ->  Extracted/MemChecks.v
+ECODE = {"InvalidAllocationSize": 10, "InvalidMemoryHandle": 11, "DoubleFree": 12, "UseAfterFree": 13,
+         "MemoryOutOfBounds": 14, "NegativeMemoryIndex": 15, "TypeError": 16, "OutOfMemory": 17}
+HEAP_ERR = {"InvalidSize": 10, "InvalidHandle": 11, "DoubleFree": 12, "UseAfterFree": 13, "OutOfBounds": 14}
+
+
+def _norm(text):
+    return re.sub(r"\s+", " ", strip_comments(text))
+
+
+def _fn_body(text, name):
+    m = re.search(r"\bfn\s+%s\s*\(" % name, text)
+    if not m:
+        raise ExtractError(f"function {name} not found")
+    i = text.index("{", m.end())
+    depth, j = 1, i + 1
+    while depth and j < len(text):
+        depth += {"{": 1, "}": -1}.get(text[j], 0)
+        j += 1
+    return text[i + 1:j - 1]
+
+
+def _builtin_checks(body, name, final):
+    """sequence of (operand index, check kind, error code) in source order.
+    kinds: 0 must be an int; 1 `< 0` is an error; 2 `<= 0` is an error; 3 null returns Ok(null) at once"""
+    ev, names = [], {}
+    for m in re.finditer(r"let (\w+)(?: ?: ?i64)? = args\[(\d)\]\s*\.as_int\(\)\s*\.ok_or_else\(\|\|[^;]*?RuntimeErrorKind::(\w+)", body):
+        names[m.group(1)] = int(m.group(2))
+        ev.append((m.start(), int(m.group(2)), 0, m.group(3)))
+    for m in re.finditer(r"if args\[(\d)\]\.is_null\(\) \{ return Ok\(Value::null\(\)\) ?;? \}", body):
+        ev.append((m.start(), int(m.group(1)), 3, None))
+    for m in re.finditer(r"if (\w+) (<=|<) 0 \{ [^{}]*?RuntimeErrorKind::(\w+)", body):
+        if m.group(1) not in names:
+            raise ExtractError(f"builtins.rs {name}: comparison on unknown local {m.group(1)!r}")
+        ev.append((m.start(), names[m.group(1)], 2 if m.group(2) == "<=" else 1, m.group(3)))
+    if final not in body:
+        raise ExtractError(f"builtins.rs {name}: no longer ends in {final}")
+    # anything else that can return an error would be a check this table does not know about
+    n_err = len(re.findall(r"\bErr\(|ok_or_else\(", body))
+    n_known = sum(1 for e in ev if e[2] != 3)
+    extra = len(re.findall(r"map_err\(", body))
+    if n_err != n_known:
+        raise ExtractError(f"builtins.rs {name}: {n_err} error exits but {n_known} recognised checks (+{extra} map_err)")
+    out = []
+    for _, idx, kind, err in sorted(ev):
+        if err is not None and err not in ECODE:
+            raise ExtractError(f"builtins.rs {name}: unknown RuntimeErrorKind::{err}")
+        out.append((idx, kind, ECODE.get(err, 0)))
+    return out
+
+
+def _arm(text, n):
+    m = re.search(r"(?<![\w.])%d => \{" % n, text)
+    if not m:
+        raise ExtractError(f"memory.inc: arm {n} not found")
+    i = m.end() - 1
+    depth, j = 1, i + 1
+    while depth and j < len(text):
+        depth += {"{": 1, "}": -1}.get(text[j], 0)
+        j += 1
+    return text[i + 1:j - 1]
+
+
+def _opcode_checks(arm, n):
+    """kinds: 4 operand must be an int >= 0 (else error);
+       5 Free as it is: int >= 0 proceeds, negative int and null return at once, anything else is an error;
+       6 Free strict: null returns at once, anything but an int >= 0 is an error;
+       7 Free lenient (pre-19374fd): anything but an int >= 0 returns at once"""
+    regs = {}
+    for m in re.finditer(r"let (\w+) = reg_get!\(base \+ ([abc]) as usize\);", arm):
+        regs[m.group(1)] = (m.start(), m.group(2))
+    order = [v for v, _ in sorted(regs.items(), key=lambda kv: kv[1][0])]
+    ev = []
+    for m in re.finditer(r"let (\w+) = match (\w+)\.as_int\(\) \{ Some\((\w+)\) if \3 >= 0 => \3 as usize, _ => \{(.*?)\} \};", arm):
+        k = re.search(r"RuntimeErrorKind::(\w+)", m.group(4))
+        if not k or "return Err" not in m.group(4) or m.group(2) not in regs:
+            raise ExtractError(f"memory.inc arm {n}: unrecognised operand check on {m.group(2)}")
+        ev.append((m.start(), order.index(m.group(2)), 4, ECODE[k.group(1)]))
+    if n == 29:
+        pos = re.search(r"Some\((\w+)\) if \1 >= 0 => \{[^{}]*manual_free\(", arm) or \
+              re.search(r"if let Some\((\w+)\) = \w+\.as_int\(\) && \1 >= 0 \{[^{}]*manual_free\(", arm)
+        neg_noop = re.search(r"Some\(_\) => \{ ?\}", arm)
+        null_noop = re.search(r"None if \w+\.is_null\(\) => \{ ?\}", arm)
+        err = re.search(r"(?:None|_) => \{[^{}]*return Err\([^;]*?RuntimeErrorKind::(\w+)", arm)
+        if not pos:
+            raise ExtractError("memory.inc Free: the int >= 0 branch calling manual_free is gone")
+        if err and neg_noop and null_noop:
+            kind = 5
+        elif err and null_noop and not neg_noop:
+            kind = 6
+        elif not err:
+            kind = 7
+        else:
+            raise ExtractError("memory.inc Free: unrecognised combination of arms")
+        ev.append((pos.start(), 0, kind, ECODE[err.group(1)] if err else 0))
+    n_err = len(re.findall(r"return Err\(\s*self\.runtime_error", arm))
+    if n_err != sum(1 for e in ev if e[2] in (4, 5, 6)):
+        raise ExtractError(f"memory.inc arm {n}: {n_err} error returns but {len(ev)} recognised operand checks")
+    return [(i, k, e) for _, i, k, e in sorted(ev)], order
+
+
+@extract.register("MemChecks")
+def gen_mem_checks():
+    b = _norm(rd("runtime/src/vm/builtins.rs"))
+    builtin = []
+    for code, (fn, final) in enumerate([("builtin_alloc", "vm.manual_alloc("), ("builtin_free", "vm.manual_free("),
+                                        ("builtin_load", ".load("), ("builtin_store", ".store(")]):
+        builtin.append((code, fn, _builtin_checks(_fn_body(b, fn), fn, final)))
+    mtext = _norm(rd("runtime/src/vm/dispatch/ops/memory.inc"))
+    opcode = []
+    expect = {28: ("manual_alloc(", 0, 1), 29: ("manual_free(", 1, 1), 30: (".load(", 2, 2), 31: (".load(", 2, 1),
+              32: (".store(", 3, 2), 33: (".store(", 3, 1)}
+    for n, (final, opc, nchk) in expect.items():
+        arm = _arm(mtext, n)
+        if final not in arm:
+            raise ExtractError(f"memory.inc arm {n}: no longer calls {final}")
+        checks, order = _opcode_checks(arm, n)
+        if len(checks) != nchk:
+            raise ExtractError(f"memory.inc arm {n}: {len(checks)} operand checks, expected {nchk}")
+        if n in (31, 33) and not re.search(r"let offset = [bc] as usize;", arm):
+            raise ExtractError(f"memory.inc arm {n}: the immediate offset is no longer `x as usize`")
+        opcode.append((n, opc, checks))
+    # opcode numbers of the memory group in the enum
+    optxt = strip_comments(rd("bytecode/src/bytecode/opcode.rs"))
+    m = re.search(r"pub enum OpCode\s*\{(.*?)\n\}", optxt, flags=re.S)
+    if not m:
+        raise ExtractError("opcode.rs: enum OpCode not found")
+    names = [x.strip().split("=")[0].strip() for x in m.group(1).split(",") if x.strip()]
+    for nm, num in (("Alloc", 28), ("Free", 29), ("LoadMem", 30), ("LoadMemI", 31), ("StoreMem", 32), ("StoreMemI", 33)):
+        if nm not in names or names.index(nm) != num:
+            raise ExtractError(f"opcode.rs: OpCode::{nm} is no longer opcode {num}")
+    # VM::manual_heap_error
+    a = _norm(rd("runtime/src/vm/alloc.rs"))
+    body = _fn_body(a, "manual_heap_error")
+    emap = []
+    for hk, code in HEAP_ERR.items():
+        mm = re.search(r"ManualHeapError::%s\b[^=]*=> (?:\{ )?RuntimeErrorKind::(\w+)" % hk, body)
+        if not mm or mm.group(1) not in ECODE:
+            raise ExtractError(f"alloc.rs manual_heap_error: arm for {hk} not recognised")
+        emap.append((code, ECODE[mm.group(1)], hk, mm.group(1)))
+    # compiler: direct calls of these names become opcodes
+    bt = strip_comments(rd("backend/src/compiler/builtins.rs"))
+    mm = re.search(r"BUILTINS\s*:[^=]*=\s*&\[(.*?)\]", bt, flags=re.S)
+    if not mm or not all(f'"{x}"' in mm.group(1) for x in ("alloc", "free", "load", "store")):
+        raise ExtractError("backend/src/compiler/builtins.rs: alloc/free/load/store are no longer compiler builtins")
+
+    def tab(cs):
+        return "[" + "; ".join(f"({i}%N, {k}%N, {e}%N)" for i, k, e in cs) + "]"
+    out = [HEADER.format(src="runtime/src/vm/builtins.rs, runtime/src/vm/dispatch/ops/memory.inc, runtime/src/vm/alloc.rs, bytecode/src/bytecode/opcode.rs"),
+           "From Coq Require Import NArith List.\nImport ListNotations.\n",
+           "(* operand checks in source order: (operand index, check kind, error code).\n"
+           "   kinds: 0 must be an int; 1 `< 0` is an error; 2 `<= 0` is an error; 3 null returns null at once;\n"
+           "          4 must be an int >= 0; 5 Free: int >= 0 proceeds, negative int and null return at once, else error;\n"
+           "          6 Free strict; 7 Free lenient.   error codes: 10 InvalidAllocationSize 15 NegativeMemoryIndex 16 TypeError\n"
+           "   operations: 0 alloc 1 free 2 load 3 store *)\n",
+           "Definition builtin_checks : list (N * list (N * N * N)) := [\n  "]
+    out.append(";\n  ".join(f"({c}%N, {tab(cs)}) (* {fn} *)" for c, fn, cs in builtin) + "\n].\n")
+    out.append("(* (opcode, operation, checks) *)\nDefinition opcode_checks : list (N * N * list (N * N * N)) := [\n  ")
+    out.append(";\n  ".join(f"({n}%N, {o}%N, {tab(cs)})" for n, o, cs in opcode) + "\n].\n")
+    out.append("(* VM::manual_heap_error: (ManualHeapError code, RuntimeErrorKind code) *)\nDefinition heap_error_map : list (N * N) := [\n  ")
+    out.append(";\n  ".join(f"({a}%N, {b}%N) (* {x} -> {y} *)" for a, b, x, y in emap) + "\n].\n")
+    return write_if_changed("MemChecks.v", "".join(out))
